@@ -1219,6 +1219,30 @@ class FilteredDirectoryContentsTask : public Task {
 
 
 public:
+  static bool isResultValid(BuildEngine& engine, StringRef path,
+                            const StringList& filters,
+                            const BuildValue& value) {
+    // The stat information of the directory is a dependency of this task, but
+    // the listing can change while that record stays the same (its times were
+    // restored, or the file system's timestamps are coarse). Like the
+    // unfiltered variant, list the current filtered contents and compare.
+    if (!value.isFilteredDirectoryContents())
+      return true;
+
+    std::vector<std::string> cur;
+    std::error_code ec = getFilteredContents(path, filters, cur);
+    (void)ec;
+
+    auto prev = value.getDirectoryContents();
+    if (cur.size() != prev.size())
+      return false;
+    for (size_t i = 0; i != cur.size(); ++i) {
+      if (prev[i] != cur[i])
+        return false;
+    }
+    return true;
+  }
+
   FilteredDirectoryContentsTask(StringRef path, StringList&& filters)
       : path(path), filters(std::move(filters))
       , directoryValue(BuildValue::makeInvalid()) {}
@@ -1847,7 +1871,12 @@ std::unique_ptr<Rule> BuildSystemEngineDelegate::lookupRule(const KeyType& keyDa
         BinaryDecoder decoder(patterns);
         return new FilteredDirectoryContentsTask(path, StringList(decoder));
       },
-      /*IsValid=*/ nullptr
+      /*IsValid=*/ [path, patterns](BuildEngine& engine, const Rule& rule,
+          const ValueType& value) mutable -> bool {
+        BinaryDecoder decoder(patterns);
+        return FilteredDirectoryContentsTask::isResultValid(
+            engine, path, StringList(decoder), BuildValue::fromData(value));
+      }
     ));
   }
 
